@@ -10,6 +10,25 @@ COMMON_NOTE = ("Trusted: Coq 8.16.1 kernel + vm_compute; the hand-written execut
 
 # id -> (claimed?, full/partial text, technique, level_note extra, design_ref)
 PROPS = {
+    "C05": (True, "Full for the listed functions under the stated CPython semantics of the IR constructs. A heap-effect IR of "
+            "Position.move (_move_place/_move_slide inlined), from_squares, from_config, parse_tps (parse_row inlined) and "
+            "transform_position is REGENERATED from the source on every run by a fail-closed ast translator; theorem: a program all "
+            "of whose stores target objects allocated by its own activation leaves every pre-existing heap object unchanged, whether "
+            "it returns or raises part-way, for every oracle stream, fuel, heap and argument list; the generated programs satisfy the "
+            "discipline by computation; corollary over every interleaving of accepted and refused calls on retained positions. "
+            "Heap-graph correspondence (id() sharing graphs of traced real calls replayed on the IR inside Coq) plus a game-tree "
+            "oracle with deep snapshots.",
+            "Coq theorem over a heap-effect IR regenerated from the source (translator tie) + heap-graph correspondence in Coq",
+            "The ast translator harness/heap_ir.py and the CPython semantics it assigns to list operations; a caller mutating the "
+            "exposed lists directly is out of the property's scope.", "6/C05"),
+    "C06": (True, "Full. On the domain the vocabulary can index (sizes 3-6, reserves 0..49, capstones 0..1, only tops may be "
+            "walls/capstones; every position reachable in a game with such counts is proved to be in it): decode(encode p) = "
+            "(board, side to move, reserves), injectivity, colour swap changes only the side-to-move token, all tokens are bytes, "
+            "batch rows = per-position encodings padded with 0 under a mask of exactly the real tokens (and EMPTY = pad value, so "
+            "the mask is essential). Token values are read from the regenerated constants, so the proofs are re-checked against the "
+            "live vocabulary.",
+            "Coq theorem (induction over the board with decode's current-square accumulator) + regenerated vocabulary + differential correspondence in Coq",
+            "torch tensor <-> list conversions in the harness; Python negative indexing modelled faithfully outside the domain.", "6/C06"),
     "C07": (True, "Full. Theorems for every size n: the id table lists exactly the well-formed moves (table_spec), without "
             "repetition, encode/decode are mutual inverses between [0,|table n|) and the move universe; width bound proved for "
             "sizes 3-6 by computation. Tie is exhaustive: every id and move of sizes 0-6 compared with the model inside Coq.",
